@@ -21,7 +21,7 @@ not per visitor event, which is how the code works (deferred flush).
 import z3
 from pyvc.spec import contract, class_spec, inline_ok
 from pyvc.values import (Int, Bool, Str, Opt, Rec, SeqOf, ObjOf, MutObjOf, ListK, ClosureOf, Const, SymSeq, PyList, Obj,
-                         SymClosure, OptV, RecorderK)
+                         SymClosure, OptV, RecorderK, TupleK)
 from pyvc.speclib import AND, OR, NOT, IMPLIES, IFF, ITE, EQ, IS_NONE, VAL, ISINST, LEN, AT, smt
 from pyvc import speclib
 from .common import SERIALIZABLE, ANY, ATTRIBUTE, FIELD, PADDING, CONSTANT, VOID_T, COMPOSITE
@@ -404,12 +404,16 @@ def WF(b):
 
 
 def commit_clauses(s, doc):
+    return commit_between(s.self, s.old, doc)
+
+
+def commit_between(new_b, old_b, doc, doc_kept=True):
     """Effect of committing the pending statement of the pre-state (if any) with the given doc text: exactly one
     attribute, built from exactly that statement, appended to the list of its kind in the CURRENT section; nothing else
     moves."""
-    new_secs, old_secs = SECS(s.self), SECS(s.old)
+    new_secs, old_secs = SECS(new_b), SECS(old_b)
     cn, co = new_secs[-1], old_secs[-1]
-    p = PENDING(s.old)
+    p = PENDING(old_b)
     is_f = OR(p.tag == T_FIELD, p.tag == T_PAD)
     is_c = p.tag == T_CONST
     out = {
@@ -430,9 +434,9 @@ def commit_clauses(s, doc):
             EQ(LAST(cn._constants)._doc, doc),
             IMPLIES(NOT(is_string_value(p.value)), lambda: SAME(LAST(cn._constants)._value, p.value)))),
         "same-sections": len(new_secs) == len(old_secs),
-        "section-frame": dsb_unchanged(cn, co, "_fields", "_constants"),
+        "section-frame": dsb_unchanged(cn, co, "_fields", "_constants", *([] if doc_kept else ["_doc"])),
         "other-sections-untouched": AND(*[dsb_unchanged(a, b) for a, b in zip(new_secs[:-1], old_secs[:-1])]),
-        "deprecated-unchanged": EQ(s.self._is_deprecated, s.old._is_deprecated),
+        "deprecated-unchanged": EQ(new_b._is_deprecated, old_b._is_deprecated),
     }
     return out
 
@@ -703,6 +707,13 @@ def _directive_rejected(s):
     raise AssertionError(n)
 
 
+def _assert_fails(s):
+    """@assert with a boolean expression that evaluates to false."""
+    if not _is(s.directive_name, "assert") or _val(s) is None:
+        return False
+    return AND(_val_isinst(s, BOOLEAN_XQ), lambda: NOT(_bool_value(s)))
+
+
 def _calls(b):
     h = b._print_output_handler
     if smt():
@@ -710,14 +721,31 @@ def _calls(b):
     return h.calls
 
 
+class _RecorderGrown(type(Str)):
+    """The print handler after the call: one more recorded call iff the directive is @print (arguments unconstrained
+    here; the postcondition states them)."""
+
+    def __init__(self, old, name):
+        self.old, self.name = old, name
+
+    def build(self, ctx, mk):
+        from pyvc.values import Recorder
+
+        r = Recorder(self.old.name)
+        r.calls = PyList(list(self.old.calls.items))
+        if _is(self.name, "print"):
+            r.calls.items.append((mk("!line", z3.IntSort()), mk("!text", z3.StringSort())))
+        return r
+
+
 @contract(DTB + ".on_directive", props=P17)
 class _OnDirective:
     params = dict(line_number=Int, directive_name=Str, associated_expression_value=Opt(ObjOf(ANY)))
     instances = _dir_instances
-    havoc = lambda s: [(s.self, "_is_deprecated"), (CUR(s.self), "_is_union"), (CUR(s.self), "_serialization_mode")]
+    havoc = lambda s: [(s.self, "_is_deprecated"), (CUR(s.self), "_is_union"), (CUR(s.self), "_serialization_mode"),
+                       (s.self, "_print_output_handler", _RecorderGrown(s.self._print_output_handler, s.directive_name))]
     raises = {
-        "AssertionCheckFailureError": lambda s: AND(_is(s.directive_name, "assert"), lambda: _val_isinst(s, BOOLEAN_XQ),
-                                                    lambda: NOT(_bool_value(s))),
+        "AssertionCheckFailureError": lambda s: _assert_fails(s),
         "InvalidDirectiveError": _directive_rejected,
         "InvalidOperandError": None,  # @extent with a non-integral rational (Rational.as_native_integer, C04)
     }
@@ -759,6 +787,434 @@ def lambda_free_str(s):
             return STR_OF(v.val)
         return STR_OF(v) if v is not None else ""
     return str(v) if v is not None else ""
+
+
+# ------------------------------------------------------------------------------------------------ level 3: processor
+NodeK = Rec("Node", text=Str)
+
+
+@class_spec(PTP)
+class _PTPSpec:
+    fields = dict(
+        _statement_stream_processor=MutObjOf(DTB),
+        _current_line_number=Int,
+        _comment=Str,
+        _comment_is_header=Bool,
+        _strict=Bool,
+    )
+    mutable = ["_current_line_number", "_comment", "_comment_is_header"]
+    owns_state = True
+
+
+inline_ok(PTP + ".current_line_number", why="trivial accessor (asserts the line number is positive)")
+
+_PTP_INSTANCES = lambda: [{"self._statement_stream_processor": MutObjOf(DTB)},
+                          {"self._statement_stream_processor": MutObjOf(DTB, _structs=ListK(MutObjOf(DSB), MutObjOf(DSB)))}]
+
+
+def B(p):
+    return p._statement_stream_processor
+
+
+def WF_P(p):
+    """Representation invariant of the processor + builder pair."""
+    return AND(p._current_line_number >= 1,
+               WF(B(p)),
+               # a header comment is only collected while no attribute statement is pending
+               IMPLIES(p._comment_is_header, NO_PENDING(B(p))))
+
+
+def strip_marker(text):
+    """The doc text of a comment: the text after `#`, without one separating blank."""
+    if smt():
+        t = Str.unwrap(text)
+        return z3.If(z3.PrefixOf(z3.StringVal("# "), t), z3.SubString(t, 2, z3.Length(t)), z3.SubString(t, 1, z3.Length(t)))
+    return text[2:] if text.startswith("# ") else text[1:]
+
+
+def join_doc(acc, more):
+    """Comment lines of one block are joined by line feeds."""
+    if smt():
+        a, m = Str.unwrap(acc), Str.unwrap(more)
+        return z3.If(a == z3.StringVal(""), m, z3.Concat(a, z3.StringVal("\n"), m))
+    return more if acc == "" else acc + "\n" + more
+
+
+def builder_unchanged(new_b, old_b):
+    ns_, os_ = SECS(new_b), SECS(old_b)
+    return AND(len(ns_) == len(os_), _pending_same(new_b, old_b), EQ(new_b._is_deprecated, old_b._is_deprecated),
+               len(_calls(new_b)) == len(_calls(old_b)),
+               *[dsb_unchanged(a, b) for a, b in zip(ns_, os_)])
+
+
+def flush_clauses(new_p, old_p, prefix="flush:", response_marker=False):
+    """What flushing the collected comment does (documented rule): a header block becomes the doc of the current
+    section; otherwise the block is the doc of the pending attribute statement, which is committed with it."""
+    nb, ob = B(new_p), B(old_p)
+    hdr = old_p._comment_is_header
+    out = {
+        "comment-consumed": EQ(new_p._comment, ""),
+        "line-kept": new_p._current_line_number == old_p._current_line_number,
+        "header-doc": IMPLIES(hdr, lambda: AND(EQ(SECS(nb)[len(SECS(ob)) - 1]._doc, old_p._comment))),
+        "attribute-doc-kept-section-doc": IMPLIES(NOT(hdr), lambda: EQ(SECS(nb)[len(SECS(ob)) - 1]._doc, CUR(ob)._doc)),
+    }
+    if not response_marker:
+        out["header-over"] = NOT(new_p._comment_is_header)
+        for k, v in commit_between(nb, ob, old_p._comment, doc_kept=False).items():
+            out[k] = v
+    return {prefix + k: v for k, v in out.items()}
+
+
+def havoc_processor(s):
+    b = B(s.self)
+    out = [(s.self, "_comment"), (s.self, "_comment_is_header"), (b, "_element_callback")]
+    for sec in SECS(b):
+        out += [(sec, "_fields"), (sec, "_constants"), (sec, "_doc")]
+    return out
+
+
+def p_commit_raises():
+    return {
+        "BitLengthAnalysisError": lambda s: AND(OR(PENDING(B(s.old)).tag == T_FIELD, PENDING(B(s.old)).tag == T_PAD),
+                                                CUR(B(s.old))._is_union, CUR(B(s.old))._bit_length_computed_at_least_once),
+        "InvalidNameError": None, "InvalidTypeError": None, "InvalidConstantValueError": None,
+    }
+
+
+@contract(PTP + ".__init__", props=P17)
+class _PTPInit:
+    params = dict(statement_stream_processor=MutObjOf(DTB), strict=Bool)
+
+    def post(s):
+        return {"line-one": s.self._current_line_number == 1, "no-comment": EQ(s.self._comment, ""),
+                "header-first": s.self._comment_is_header,
+                "processor": SAME(s.self._statement_stream_processor.ref if smt() else s.self._statement_stream_processor,
+                                  s.statement_stream_processor.ref if smt() else s.statement_stream_processor)}
+
+
+@contract(PTP + "._flush_comment", props=P)
+class _FlushComment:
+    instances = _PTP_INSTANCES
+    havoc = havoc_processor
+    raises = p_commit_raises()
+
+    def pre(s):
+        return {"wf": WF_P(s.self)}
+
+    def post(s):
+        out = {"nothing-pending-afterwards": NO_PENDING(B(s.self)), "wf": WF_P(s.self),
+               "calls-kept": len(_calls(B(s.self))) == len(_calls(B(s.old)))}
+        out.update(flush_clauses(s.self, s.old, prefix=""))
+        return out
+
+
+def processor_unchanged(new_p, old_p, *except_):
+    cs = []
+    for f in ("_current_line_number", "_comment", "_comment_is_header"):
+        if f not in except_:
+            cs.append(SAME(getattr(new_p, f), getattr(old_p, f)))
+    if "builder" not in except_:
+        cs.append(builder_unchanged(B(new_p), B(old_p)))
+    return AND(*cs)
+
+
+@contract(PTP + ".visit_end_of_line", props=P17)
+class _VisitEOL:
+    params = dict(_n=NodeK, _c=Const(()))
+    instances = _PTP_INSTANCES
+    havoc = lambda s: [(s.self, "_current_line_number")]
+
+    def pre(s):
+        return {"wf": WF_P(s.self)}
+
+    def post(s):
+        return {"next-line": s.self._current_line_number == s.old._current_line_number + 1,
+                "nothing-else": processor_unchanged(s.self, s.old, "_current_line_number"), "wf": WF_P(s.self)}
+
+
+@contract(PTP + ".visit_comment", props=P)
+class _VisitComment:
+    params = dict(node=NodeK, children=Const(()))
+    instances = _PTP_INSTANCES
+    havoc = lambda s: [(s.self, "_comment")]
+
+    def pre(s):
+        return {"wf": WF_P(s.self)}
+
+    def post(s):
+        return {"block-extended": EQ(s.self._comment, join_doc(s.old._comment, strip_marker(s.node.text))),
+                "nothing-else": processor_unchanged(s.self, s.old, "_comment"), "wf": WF_P(s.self)}
+
+
+def _line_raises():
+    d = p_commit_raises()
+    inner = d["BitLengthAnalysisError"]
+    d["BitLengthAnalysisError"] = lambda s: AND(EQ(s.node.text, ""), inner(s))
+    return d
+
+
+@contract(PTP + ".visit_line", props=P)
+class _VisitLine:
+    params = dict(node=NodeK, children=Const(()))
+    instances = _PTP_INSTANCES
+    havoc = havoc_processor
+    raises = _line_raises()
+
+    def pre(s):
+        return {"wf": WF_P(s.self)}
+
+    def post(s):
+        empty = EQ(s.node.text, "")
+        out = {"non-empty-line-changes-nothing": IMPLIES(NOT(empty), lambda: processor_unchanged(s.self, s.old)),
+               "empty-line-nothing-pending": IMPLIES(empty, lambda: NO_PENDING(B(s.self))), "wf": WF_P(s.self),
+               "calls-kept": len(_calls(B(s.self))) == len(_calls(B(s.old)))}
+        for k, v in flush_clauses(s.self, s.old, prefix="empty-line-").items():
+            out[k] = IMPLIES(empty, v)
+        return out
+
+
+@contract(PTP + ".visit_identifier", props=P)
+class _VisitIdentifier:
+    params = dict(node=NodeK, _c=Const(()))
+    returns = Str
+    instances = _PTP_INSTANCES
+    havoc = havoc_processor
+    raises = p_commit_raises()
+
+    def pre(s):
+        return {"wf": WF_P(s.self), "identifier-not-empty": NOT(EQ(s.node.text, ""))}
+
+    def post(s):
+        out = {"the-text": EQ(s.result, s.node.text), "nothing-pending-afterwards": NO_PENDING(B(s.self)), "wf": WF_P(s.self),
+               "calls-kept": len(_calls(B(s.self))) == len(_calls(B(s.old)))}
+        out.update(flush_clauses(s.self, s.old))
+        return out
+
+
+def _stmt_raises():
+    d = {"InvalidDirectiveError": lambda s: _is_delimited(CUR(B(s.old))._serialization_mode)}
+    d.update(p_commit_raises())
+    return d
+
+
+def _stmt_post(s, tag, T, name=None, value=None):
+    out = {"exactly-this-statement-pending": pending_is(B(s.self), tag, T, name, value), "wf": WF_P(s.self),
+           "calls-kept": len(_calls(B(s.self))) == len(_calls(B(s.old)))}
+    out.update(flush_clauses(s.self, s.old))
+    return out
+
+
+@contract(PTP + ".visit_statement_field", props=P)
+class _VisitField:
+    params = dict(_n=NodeK, children=TupleK(ObjOf(SERIALIZABLE), Const(None), Str))
+    instances = _PTP_INSTANCES
+    havoc = havoc_processor
+    raises = _stmt_raises()
+
+    def pre(s):
+        return {"wf": WF_P(s.self), "name-not-empty": NOT(EQ(s.children[2], ""))}
+
+    def post(s):
+        return _stmt_post(s, T_FIELD, s.children[0], s.children[2])
+
+
+@contract(PTP + ".visit_statement_constant", props=P)
+class _VisitConstant:
+    params = dict(_n=NodeK, children=TupleK(ObjOf(SERIALIZABLE), Const(None), Str, Const(None), Const(None), Const(None),
+                                            ObjOf(ANY)))
+    instances = _PTP_INSTANCES
+    havoc = havoc_processor
+    raises = _stmt_raises()
+
+    def pre(s):
+        return {"wf": WF_P(s.self), "name-not-empty": NOT(EQ(s.children[2], ""))}
+
+    def post(s):
+        return _stmt_post(s, T_CONST, s.children[0], s.children[2], s.children[6])
+
+
+@contract(PTP + ".visit_statement_padding_field", props=P)
+class _VisitPadding:
+    params = dict(_n=NodeK, children=TupleK(ObjOf(VOID_T), Const(None)))
+    instances = _PTP_INSTANCES
+    havoc = havoc_processor
+    raises = _stmt_raises()
+
+    def pre(s):
+        return {"wf": WF_P(s.self)}
+
+    def post(s):
+        return _stmt_post(s, T_PAD, s.children[0])
+
+
+def havoc_processor_marker(s):
+    b = B(s.self)
+    return [(s.self, "_comment"), (s.self, "_comment_is_header"), (b, "_element_callback"),
+            (b, "_structs", ListK(MutObjOf(DSB), MutObjOf(DSB)))]
+
+
+def _marker_raises():
+    d = p_commit_raises()  # the specific classes first: they are subclasses of InvalidDefinitionError
+    d["InvalidDefinitionError"] = lambda s: len(SECS(B(s.old))) > 1
+    return d
+
+
+@contract(PTP + ".visit_statement_service_response_marker", props=P)
+class _VisitMarker:
+    params = dict(_n=NodeK, _c=Const(()))
+    instances = _PTP_INSTANCES
+    havoc = havoc_processor_marker
+    raises = _marker_raises()
+
+    def pre(s):
+        return {"wf": WF_P(s.self)}
+
+    def post(s):
+        nb, ob = B(s.self), B(s.old)
+        # the request section is what the flush made of it: seen as a one-section builder state
+        req_new = _View(_structs=(PyList([SECS(nb)[0]]) if smt() else [SECS(nb)[0]]), _element_callback=None,
+                        _is_deprecated=nb._is_deprecated)
+        out = {"two-sections": len(SECS(nb)) == 2,
+               "response-section-empty": dsb_is_empty(SECS(nb)[-1]),
+               "response-header-may-follow": s.self._comment_is_header,
+               "comment-consumed": EQ(s.self._comment, ""),
+               "line-kept": s.self._current_line_number == s.old._current_line_number,
+               "nothing-pending-afterwards": NO_PENDING(nb), "wf": WF_P(s.self),
+               "calls-kept": len(_calls(nb)) == len(_calls(ob)),
+               "request-header-doc": IMPLIES(s.old._comment_is_header, lambda: EQ(SECS(nb)[0]._doc, s.old._comment)),
+               "request-doc-kept": IMPLIES(NOT(s.old._comment_is_header), lambda: EQ(SECS(nb)[0]._doc, CUR(ob)._doc))}
+        for k, v in commit_between(req_new, ob, s.old._comment, doc_kept=False).items():
+            out["request:" + k] = v
+        return out
+
+
+def havoc_processor_directive(s):
+    b = B(s.self)
+    return havoc_processor(s) + [(b, "_is_deprecated"), (CUR(b), "_is_union"), (CUR(b), "_serialization_mode"),
+                                 (b, "_print_output_handler", _RecorderGrown(b._print_output_handler, _dir_name(s)))]
+
+
+def _dir_name(s):
+    return s.children[1]
+
+
+class _DirView:
+    """on_directive's view of a directive statement visited by the processor."""
+
+    def __init__(self, s, with_expr):
+        self.directive_name = s.children[1]
+        self.associated_expression_value = s.children[3] if with_expr else None
+        self.old = B(s.old)
+        self.self = B(s.self)
+        self.line_number = s.old._current_line_number
+
+
+def _directive_visit_raises(with_expr):
+    d = {
+        "AssertionCheckFailureError": lambda s: _assert_fails(_DirView(s, with_expr)),
+        "InvalidDirectiveError": lambda s: _directive_rejected_after_flush(s, with_expr),
+        "InvalidOperandError": None,
+    }
+    d.update(p_commit_raises())
+    return d
+
+
+def _directive_rejected_after_flush(s, with_expr):
+    """The directive rules are applied to the state AFTER the flush: a pending attribute statement counts as an
+    attribute of the section (that is what 'before the first attribute definition' means in the source text)."""
+    v = _DirView(s, with_expr)
+    n = v.directive_name
+    ob = B(s.old)
+    cur = CUR(ob)
+    none = IS_NONE(v.associated_expression_value)
+    has_attrs = OR(_has_attributes(cur), NOT(NO_PENDING(ob)))
+    if not _known(n):
+        return True
+    if n == "print":
+        return False
+    if n == "assert":
+        return OR(none, NOT(_val_isinst(v, BOOLEAN_XQ)))
+    if n == "extent":
+        return OR(NOT(IS_NONE(cur._serialization_mode)), none, NOT(_val_isinst(v, RATIONAL_XQ)))
+    if n == "sealed":
+        return OR(NOT(IS_NONE(cur._serialization_mode)), NOT(none))
+    if n == "union":
+        return OR(NOT(none), cur._is_union, has_attrs)
+    if n == "deprecated":
+        return OR(NOT(none), ob._is_deprecated, len(SECS(ob)) > 1, has_attrs)
+    raise AssertionError(n)
+
+
+def _directive_visit_post(s, with_expr):
+    v = _DirView(s, with_expr)
+    n = v.directive_name
+    nb, ob = B(s.self), B(s.old)
+    cn, co = CUR(nb), CUR(ob)
+    new_calls, old_calls = _calls(nb), _calls(ob)
+    out = {"nothing-pending-afterwards": NO_PENDING(nb), "wf": WF_P(s.self),
+           "union-flag": IFF(cn._is_union, OR(co._is_union, _is(n, "union"))),
+           "deprecated-flag": IFF(nb._is_deprecated, OR(ob._is_deprecated, _is(n, "deprecated"))),
+           "mode-kept-unless-set": IMP(not (_is(n, "sealed") or _is(n, "extent")),
+                                       lambda: SAME(cn._serialization_mode, co._serialization_mode)),
+           "sealed": IMP(_is(n, "sealed"), lambda: ISINST(VAL(cn._serialization_mode), "SealedSerializationMode")),
+           "delimited": IMP(_is(n, "extent"), lambda: ISINST(VAL(cn._serialization_mode), "DelimitedSerializationMode")),
+           # C17: the directive handler receives the line the processor is on
+           "print-delivered-exactly-once": len(new_calls) == len(old_calls) + (1 if _is(n, "print") else 0),
+           "print-carries-current-line-and-text": IMP(_is(n, "print"), lambda: AND(
+               EQ(new_calls[-1][0], s.old._current_line_number),
+               EQ(new_calls[-1][1], ITE(IS_NONE(v.associated_expression_value), "", lambda_free_str(v)))))}
+    fl = flush_clauses(s.self, s.old)
+    # the flags of the current section are the directive's business; the flush frame is restated without them
+    for k in list(fl):
+        if k.endswith("section-frame") or k.endswith("deprecated-unchanged"):
+            del fl[k]
+    out.update(fl)
+    out["lists-and-flags-frame"] = dsb_unchanged(cn, co, "_fields", "_constants", "_doc", "_is_union", "_serialization_mode")
+    return out
+
+
+def _dir_visit_instances(with_expr):
+    def gen():
+        out = []
+        for inst in _PTP_INSTANCES():
+            for n in DIRECTIVE_NAMES + [_OtherName()]:
+                d = dict(inst)
+                kinds = [Const(None), n if isinstance(n, _OtherName) else Const(n)]
+                if with_expr:
+                    kinds += [Const(None), ObjOf(ANY)]
+                d["children"] = TupleK(*kinds)
+                d["__label__"] = n if isinstance(n, str) else "other"
+                out.append(d)
+        return out
+    return gen
+
+
+@contract(PTP + ".visit_statement_directive_with_expression", props=P17)
+class _VisitDirectiveWith:
+    params = dict(_n=NodeK)
+    instances = _dir_visit_instances(True)
+    havoc = havoc_processor_directive
+    raises = _directive_visit_raises(True)
+
+    def pre(s):
+        return {"wf": WF_P(s.self), "name-not-empty": NOT(EQ(_dir_name(s), ""))}
+
+    def post(s):
+        return _directive_visit_post(s, True)
+
+
+@contract(PTP + ".visit_statement_directive_without_expression", props=P17)
+class _VisitDirectiveWithout:
+    params = dict(_n=NodeK)
+    instances = _dir_visit_instances(False)
+    havoc = havoc_processor_directive
+    raises = _directive_visit_raises(False)
+
+    def pre(s):
+        return {"wf": WF_P(s.self), "name-not-empty": NOT(EQ(_dir_name(s), ""))}
+
+    def post(s):
+        return _directive_visit_post(s, False)
 
 
 # ------------------------------------------------------------------------------------------------ native harness
